@@ -38,12 +38,22 @@ type Engine struct {
 	allPkgs   map[string]*packages.Package
 }
 
+// loadMode: dependencies come from export data (fast, small) for the real
+// tree; with an overlay (self-test mutants) everything is type-checked from
+// source, which go/ssa needs when packages are rebuilt around overlaid files.
+func loadMode(overlay map[string][]byte) packages.LoadMode {
+	if len(overlay) > 0 {
+		return packages.LoadAllSyntax
+	}
+	return packages.LoadSyntax
+}
+
 func LoadEngine(repoDir string, overlay map[string][]byte, extSpecs []string) (*Engine, error) {
 	eng := &Engine{reg: NewRegistry(), funcs: map[string]*ssa.Function{}, contracts: map[string]*FuncContract{}, externals: map[string]*FuncContract{},
 		ghosts: map[string]*GhostFunc{}, macros: map[string]*Macro{}, byShort: map[string]*types.Package{}, loopCache: map[*ssa.Function]*LoopInfo{},
 		constGlobals: map[string]bool{}, repoDir: repoDir, allPkgs: map[string]*packages.Package{}}
 	cfg := &packages.Config{
-		Mode:       packages.LoadSyntax,
+		Mode:       loadMode(overlay),
 		Dir:        repoDir,
 		BuildFlags: []string{"-tags=verif"},
 		Overlay:    overlay,
